@@ -75,9 +75,25 @@ def aux_invariant_operations(ctx, cls, op):
         T = _isom(ctx, n, 'a') if cls != "ProjPolygon" else pr.Transformation(ctx.reals('T', (n + 1, n + 1)))
         Y = T @ X
         ctx.ensure_true('type', type(Y) is type(X))
-        aux_ok(ctx, 'image', Y)
         T2 = h.Isometry(np.stack([T.proj_data, T.proj_data @ T.proj_data])) if cls != "ProjPolygon" else pr.Transformation(np.stack([T.proj_data, T.proj_data @ T.proj_data]))
-        aux_ok(ctx, 'image_pairwise', T2.apply(X, broadcast="pairwise"))
+        Y2 = T2.apply(X, broadcast="pairwise")
+        if cls in ("Segment", "HypPolygon") and ctx.mode == 'sym':
+            # modular: `apply` multiplies primary and derived data by the matrix (checked here, for the symbolic isometry
+            # and for the pairwise composite); _compute_aux_data is projectively equivariant under the generators of
+            # O(n,1) for arbitrary representatives (obligation aux_equivariance), hence under every isometry; together
+            # with Aux(X) this gives Aux(T @ X).  Recomputing the ideal endpoints of the image symbolically is far too
+            # large; the bounded stand-in below (numeric mode) still checks the end-to-end statement directly.
+            M = T.proj_data
+            ctx.ensure_eq('image_primary_is_primary_times_matrix', Y.proj_data, p0 @ M)
+            ctx.ensure_eq('image_derived_is_derived_times_matrix', Y.aux_data, a0 @ M)
+            ctx.ensure_true('pairwise_shape', Y2.shape == (2, 2), f"{Y2.shape}")
+            for i in range(2):
+                for j, Mj in enumerate((M, M @ M)):
+                    ctx.ensure_eq(f'pairwise{i}{j}_primary', Y2.proj_data[i, j], p0[i] @ Mj)
+                    ctx.ensure_eq(f'pairwise{i}{j}_derived', Y2.aux_data[i, j], a0[i] @ Mj)
+        else:
+            aux_ok(ctx, 'image', Y)
+            aux_ok(ctx, 'image_pairwise', Y2)
     elif op == "restructure":
         aux_ok(ctx, 'reshape', X.reshape((1, 2)))
         aux_ok(ctx, 'flatten', X.reshape((2, 1)).flatten_to_unit())
@@ -102,6 +118,36 @@ def aux_invariant_operations(ctx, cls, op):
     aux_ok(ctx, 'input_after', X)
     same_points(ctx, 'input_points_unchanged', X.proj_data, p0)
     same_points(ctx, 'input_aux_unchanged', X.aux_data, a0)
+
+
+@rcontract(P, "aux_equivariance", instances=[dict(cls=c, gen=g) for c in ("Segment", "HypPolygon") for g in ("rotation", "loxodromic", "reflection")],
+           timeout=150.0, max_paths=60, functions=[HY + "Segment._compute_aux_data", HY + "Polygon._compute_aux_data"])
+def aux_equivariance(ctx, cls, gen):
+    """_compute_aux_data(x M) = _compute_aux_data(x) M projectively, for ARBITRARY representatives x of the vertices and
+    M a generator of O(2,1) (rotation by a symbolic angle, standard loxodromic with a symbolic parameter, a reflection):
+    by induction on word length it holds for every isometry, because x M is again an arbitrary representative"""
+    n = 2
+    m = 2 if cls == "Segment" else 3
+    k = _klein(ctx, 'k', (m,), n)
+    for i in range(m if m > 2 else 1):
+        ctx.assume(spec.nsq(k[i] - k[(i + 1) % m]), '>', 0)
+    sc = ctx.reals('s', (m, 1), lambda r: r.choice([-1.0, 1.0], size=(m, 1)) * r.uniform(0.3, 3, (m, 1)))
+    ctx.assume(sc * sc, '>', 0)
+    x = sc * spec.k2proj(k)
+    if gen == "rotation":
+        M = h.Isometry.standard_rotation(ctx.real('th', lambda r: r.uniform(-3, 3)), dimension=n).proj_data
+    elif gen == "loxodromic":
+        lam = ctx.real('lam', lambda r: r.uniform(0.4, 2.5))
+        ctx.assume(lam, '>', 0)
+        M = h.Isometry.standard_loxodromic(n, lam).proj_data
+    else:
+        M = np.diag([1, 1, -1])
+    obj = object.__new__(h.Segment if cls == "Segment" else h.Polygon)
+    f = type(obj)._compute_aux_data
+    a0 = f(obj, np.array(x, copy=True))
+    a1 = f(obj, x @ M)
+    ctx.ensure_true('shape', np.shape(a0) == np.shape(a1), f"{np.shape(a0)} vs {np.shape(a1)}")
+    ctx.ensure_eq('equivariant', a1, a0 @ M, proj=True, tol=1e-6)
 
 
 QUERIES = ["coords_klein", "coords_poincare", "coords_halfspace", "coords_hyperboloid", "coords_projective", "distance", "origin_to",
@@ -245,7 +291,7 @@ def histories(tier, rng, rep):
         if have.shape != want.shape:
             return f"aux shape {have.shape} vs {want.shape}"
         m = have[..., :, None] * want[..., None, :]
-        if np.max(np.abs(m - np.swapaxes(m, -1, -2))) > 1e-6 * max(1.0, np.max(np.abs(m))):
+        if not np.all(np.abs(m - np.swapaxes(m, -1, -2)) <= 1e-6 * max(1.0, np.max(np.abs(m)))):
             return "derived data stale"
         if not np.all(np.isfinite(have)):
             return "nan in derived data"
